@@ -187,9 +187,7 @@ theorem insertSemis_only_adds (items : List Item) (h : ∀ it ∈ items, it.text
     · simp [hit, ih hrest]
     · split
       · simp [hit, ih hrest]
-      · split
-        · simp [hit, ih hrest]
-        · simp [hit, ih hrest]
+      · simp [hit, ih hrest]
 
 /-! ### non-vacuity: the statements apply to concrete, non-trivial texts -/
 
